@@ -194,7 +194,8 @@ class ConditionalStream(Stream):
             C(etag=None, ims={"t": T0, "fmt": 2}, lm=[T0 - 1, 500000, 60]),
             C(etag=None, ims={"t": T0, "fmt": 0}, lm=[T0, 0, 0], method="POST"),
             C(inm={"tags": [["abc", False]]}, method="HEAD"),
-            # grey: If-Match against a response without ETag, empty tags, Range together with validators
+            # If-Match against a response without ETag (grey); F11e empty tags, F11c Range together with
+            # validators (repaired by a63ec67 / 64fcb6a)
             C(etag=None, im={"tags": [["abc", False]]}, ims={"t": T0, "fmt": 0}, lm=[T0, 0, 0], strict=False),
             C(etag=["", False], inm={"tags": [["", False]]}),
             C(inm={"tags": [["abc", False]]}, range="bytes=0-1", accept_ranges=True, clen=10),
@@ -313,24 +314,14 @@ class ConditionalStream(Stream):
             return None
         if case["range"] is not None and real_out in ("206", "416") and want == "200":
             return None  # range outcomes are judged in stream ranges
-        if case["range"] is not None and real_out in ("206", "416") and want == "304":
-            return "[range-over-304] " + f"status {real_out} although the validators match (304 expected for {case['method']})"
         if case["range"] is not None and real_out in ("206", "416") and want == "412":
             return None  # the property constrains 412 in one direction only
         return self.tag(case, f"status {real_out}, documented condition gives {want}")
 
     def tag(self, case, what):
-        etag = case.get("etag")
-        spec = case.get("inm") or case.get("im")
-        if etag is not None and etag[0] == "" and spec and "tags" in spec and any(v == "" for v, _ in spec["tags"]):
-            return "[empty-tag] " + what
         return what
 
     def finding_key(self, case, what):
-        if what.startswith("[range-over-304] "):
-            return "F11c"
-        if what.startswith("[empty-tag] "):
-            return "F11e"
         return None
 
     def nontrivial(self, case, real_out):
@@ -424,7 +415,7 @@ class RangesStream(Stream):
             R(fl(0, 0), 1, (1,)),
             R(fl(0, 99), 6, (6,)),
             R(fl(6, 7), 6, (6,)),
-            R({"items": [{"k": "sfx", "n": 0}]}, 6, (6,)),
+            R({"items": [{"k": "sfx", "n": 0}]}, 6, (6,)),  # F11d (repaired by 84dd3fe): was 206 whole body
             R({"items": [{"k": "sfx", "n": 100}]}, 6, (6,)),
             R({"items": [{"k": "fl", "first": 0, "last": 1}, {"k": "fl", "first": 3, "last": 4}]}, 6, (6,)),
             R({"raw": "bytes=a-b"}, 6, (6,)),
@@ -660,8 +651,6 @@ class RangesStream(Stream):
         if cls in ("unparsable", "multi", "unsatisfiable"):
             if code != "416":
                 what = f"status {code} for an {cls} Range {case['header']!r} (416 expected)"
-                if cls == "unsatisfiable" and spec["items"][0] == {"k": "sfx", "n": 0}:
-                    return "[suffix0] " + what
                 return what
             return None
         if cls in ("other-unit", "grey"):
@@ -678,8 +667,6 @@ class RangesStream(Stream):
         return None
 
     def finding_key(self, case, what):
-        if what.startswith("[suffix0] "):
-            return "F11d"
         if what.startswith("[len0] "):
             return "F11f"
         return None
@@ -803,7 +790,7 @@ CHECK = Check(
 
 MANIFEST = {
     "level_text": "Machine-checked Lean 4 theorems about an executable model of is_resource_modified, parse_range_header, Range.range_for_length, is_byte_range_valid (compared with the live function over a cube by decide), Response.make_conditional / _process_range_request and wsgi._RangeWrapper: the not-modified condition is characterised exactly, range_for_length is sound, and the range wrapper is proved to emit exactly body[start:start+len] for every chunking of the body (including empty chunks) on both the iterator and the seekable-file path; the model is tied to the code by three differential streams and the property oracle (independent reference) runs on the real code.",
-    "level_note": "Trusted: Lean kernel; extract.py; the correspondence harness; CPython re/str/datetime/io for modelled primitives; parse_date is an opaque parameter. Known findings F11c-F11f (Range beats a matching If-None-Match; bytes=-0 gives 206; empty entity tag never matches; ranges on empty resources are ignored).",
+    "level_note": "Trusted: Lean kernel; extract.py; the correspondence harness; CPython re/str/datetime/io for modelled primitives; parse_date is an opaque parameter. Known finding F11f (ranges on empty resources are ignored instead of 416).",
     "technique": "Lean 4 proof (induction over chunk lists, case analysis of the decision procedure, decide over a regenerated table) + model/code correspondence",
     "design_ref": "DESIGN.md section 4, C11",
 }
